@@ -133,6 +133,7 @@ func allPropsUnsorted() []*propInfo {
 			Rules: []ruleFn{
 				{ID: "C12.1", Doc: "[atoms] live-only name resolution", Run: ruleC12_1, Ctrl: true},
 				{ID: "C12.2", Doc: "[dom] create: exists check, duplicate-key mapping, AlreadyExists", Run: ruleC12_2},
+				{ID: "C12.2", Doc: "[K5] error chain preserved (with %w) between the driver and the duplicate-key test", Run: ruleC12_2chain},
 				{ID: "C12.3", Doc: "[atoms][who] soft delete discipline", Run: ruleC12_3},
 				{ID: "C12.4", Doc: "[tab] unique indexes", Run: ruleC12_4},
 				{ID: "C12.5", Doc: "[tab][atoms] List siblings agree; keyset pagination; case-exact scoping (C12.6)", Run: ruleC12_5_6},
@@ -166,6 +167,7 @@ func allPropsUnsorted() []*propInfo {
 				{ID: "C14.3", Doc: "[dom] every pull restarts the subscription clock", Run: ruleC14_3},
 				{ID: "C14.4", Doc: "[atoms] expiry sweep", Run: ruleC14_4},
 				{ID: "C14.5", Doc: "[K6] negative delay rejected", Run: ruleC14_5},
+				{ID: "C01.3", Doc: "[dom] (shared) the fan-out loads whole subscription rows: retention and delivery delay are not read as zero", Run: ruleC01_3},
 				{ID: "C13.1", Doc: "[atoms] (shared) seek-to-time re-open gives fresh retention", Run: ruleC13_1},
 				{ID: "C13.2", Doc: "[atoms] (shared) seek-to-snapshot re-open gives fresh retention", Run: ruleC13_2},
 			},
@@ -175,13 +177,16 @@ func allPropsUnsorted() []*propInfo {
 			Explanation: "Static necessary conditions of 'pruning is invisible and converges': " +
 				"C15.1 each of the six prune jobs deletes exactly `id IN result` of a select whose atoms are exactly its justification (completed / expired / deleted-subscription deliveries; parentless messages, subscriptions, topics with NOT EXISTS children), with the age threshold computed as time.Now() − MinAge inside Execute; " +
 				"C15.2 referential actions: every foreign key is NO ACTION except not_before_id and dead_letter_topic_id (SET NULL), no CASCADE, in the ent schema and the SQL migrations; " +
-				"C15.3 every maintenance action constructor is registered as a background service, and the dead-letter sweep is registered. " +
+				"C15.3 every maintenance action constructor is registered as a background service, and the dead-letter sweep is registered; C15.4 the service loops wait on a ticker (or re-arm their timer on every path); C01.1 / C02.3 (shared) nothing else deletes delivery or message rows. " +
 				"NOT decided: metamorphic equality of traces, convergence at the fixpoint.",
 			Assumptions: []string{k1Assumption},
 			Rules: []ruleFn{
 				{ID: "C15.1", Doc: "[atoms] exact selection per job; threshold", Run: ruleC15_1},
 				{ID: "C15.2", Doc: "[tab] referential actions", Run: ruleC15_2},
 				{ID: "C15.3", Doc: "[tab] registry", Run: ruleC15_3},
+				{ID: "C15.4", Doc: "[dom] maintenance loops keep waking", Run: ruleC15_4},
+				{ID: "C01.1", Doc: "[who] (shared) delivery rows are removed only by the three delivery prune jobs, each with its justification", Run: ruleC01_1},
+				{ID: "C02.3", Doc: "[who] (shared) message rows are removed only by the completed-messages job", Run: ruleC02_3},
 			},
 		},
 		{
